@@ -1,8 +1,48 @@
 """Pointwise quantifier instantiation (DESIGN §2.3): skolemise the goal, instantiate quantified hypotheses at
 the ground terms of the query.  Only weakens hypotheses, so `unsat` remains a proof."""
 from __future__ import annotations
-import itertools
+import itertools, threading
 import z3
+
+
+def cli_check(solver, timeout_ms, want_model=False, opts=()):
+    """decide the solver's assertions with the z3 command-line binary under a hard wall-clock limit
+    -> ('sat'|'unsat'|'unknown', model_text)"""
+    import subprocess, tempfile, os
+    txt = solver.to_smt2()
+    if want_model:
+        txt += "\n(get-model)\n"
+    secs = max(1, int(timeout_ms / 1000))
+    with tempfile.NamedTemporaryFile("w", suffix=".smt2", delete=False, dir=os.environ.get("TMPDIR", "/tmp")) as f:
+        f.write(txt)
+        path = f.name
+    try:
+        p = subprocess.run(["z3-new", f"-T:{secs}"] + list(opts) + [path], capture_output=True, text=True, timeout=secs + 5)
+        out = p.stdout.strip()
+        first = out.splitlines()[0].strip() if out else "unknown"
+        if first not in ("sat", "unsat"):
+            first = "unknown"
+        return first, (out[len(first):].strip() if want_model and first == "sat" else "")
+    except Exception:  # noqa (timeout / missing binary)
+        return "unknown", ""
+    finally:
+        try:
+            os.unlink(path)
+        except OSError:
+            pass
+
+
+def guarded_check(solver, timeout_ms):
+    """solver.check() with a wall-clock watchdog: z3 sometimes ignores its own timeout inside preprocessing"""
+    timer = threading.Timer(timeout_ms / 1000.0 + 3.0, lambda: solver.ctx.interrupt())
+    timer.daemon = True
+    timer.start()
+    try:
+        return solver.check()
+    except z3.Z3Exception:
+        return z3.unknown
+    finally:
+        timer.cancel()
 
 
 def _subterms(e, acc, seen):
@@ -98,6 +138,15 @@ def ground_terms(formulas, sorts):
     for t in acc:
         s = t.sort()
         if s in sorts and not has_var(t, vc):
+            if z3.is_int(t) or z3.is_real(t):
+                # arithmetic compounds are not useful instance terms (and blow the product up); keep constants,
+                # function applications, lengths, accessors
+                k = t.decl().kind()
+                if k in (z3.Z3_OP_ADD, z3.Z3_OP_SUB, z3.Z3_OP_MUL, z3.Z3_OP_UMINUS, z3.Z3_OP_DIV, z3.Z3_OP_IDIV, z3.Z3_OP_MOD,
+                         z3.Z3_OP_REM, z3.Z3_OP_ITE, z3.Z3_OP_TO_REAL, z3.Z3_OP_TO_INT) and t.num_args() > 0:
+                    # allow the common index shapes i+1 / i-1 / n-1
+                    if not (k in (z3.Z3_OP_ADD, z3.Z3_OP_SUB) and t.num_args() == 2 and any(z3.is_int_value(c) for c in t.children())):
+                        continue
             by_sort.setdefault(s, {})[t.get_id()] = t
     return {s: list(d.values()) for s, d in by_sort.items()}
 
@@ -259,7 +308,7 @@ def pointwise_check(qf_hyps, qhyps, goal, axioms=(), timeout_ms=10000, rounds=1)
             insts = instantiate(qhyps_g, base, rounds=rounds, maxdepth=maxdepth)
             s.add(*base)
             s.add(*insts)
-            if s.check() == z3.unsat:
+            if cli_check(s, min(timeout_ms, tmo or timeout_ms))[0] == "unsat":
                 done = True
                 break
         if not done:
